@@ -83,7 +83,7 @@ PROPS = {
         'title': 'Typestate and dynamic modes are observationally equivalent',
         'level_text': "Proof (C09.handle_is_typed, typed_method_iff, error_correspondence): for every state, declared event, payload, history and hook environment, handle runs exactly the typed method that exists for that event on the current state (same hook trace, same resulting machine, guard-failed/action-failed errors mapped with the same names, panics propagating) and an event has no typed method on the current state exactly when the wrapper refuses it as an invalid transition. RefineReply.step_reply / replies_refine: along every history under scripted hooks, each reply of handle is exactly the abstract machine's reply - Ok, InvalidTransition{from: current leaf, event} when no edge, the first vetoing around callback's error, else GuardFailed naming the first guard answering false / unless-condition answering true and the declared event. RefineErase.conversion_erasure: for ARBITRARY hooks (history-dependent answers, writes, vetoes, panics) a history that dispatches events through whichever API the caller holds, converting between the modes at will, ends with the same machine carried (state, context, every data slot) after the same hook trace as the same events dispatched through handle on the machine wrapped once, and is ended by a hook panic exactly when that one is.",
         'level_note': 'Same side conditions as C01. Ties: T2 region HD, T3 (same operations through handle and through into_<s>/typed call/into_dynamic).',
-        'modules': ['SMV.Props.C09', 'SMV.Props.RefineReply', 'SMV.Props.RefineTyped', 'SMV.Props.RefineMixed', 'SMV.Props.RefineErase'],
+        'modules': ['SMV.Props.C09', 'SMV.Props.RefineReply', 'SMV.Props.RefineTyped', 'SMV.Props.RefineMixed', 'SMV.Props.RefineErase', 'SMV.Props.EndToEndModes'],
         'regions': ['HD', 'EV', 'SIG'],
         't3': ['walk', 'assign'],
         't5': True,
@@ -93,7 +93,7 @@ PROPS = {
         'title': 'Mode conversions are exact and lossless',
         'level_text': "Proof (C10.into_dynamic_state, extract_iff, extract_method, roundtrip, default_is_new, conversions_silent, conversion_step, conversion_chain): into_dynamic wraps the machine unchanged under its own state's variant; into_<s> succeeds iff the wrapper is in s and otherwise (poisoned included) hands the wrapper back unchanged; both round trips are the identity; conversions run no hook and drop nothing; Default is new(Default::default()). RefineMixed.mixed_refines_spec: along every history in which the caller dispatches events through whichever mode it holds (handle, or the typed method when it exists) and converts between the modes at will, the state follows the abstract machine over the dispatched events, each dispatch is accepted exactly when the abstract machine accepts it, and every conversion succeeds and changes nothing. RefineErase.gStep_convert / conversion_erasure: along histories with arbitrary hooks every conversion succeeds, runs no hook and carries the very same typed machine (state, context value, every data slot) over; erasing all conversions from a history changes neither the machine carried at the end nor the hook trace.",
         'level_note': 'Ties: T2 regions ID EX DF DN, T3 walk (into/todyn interleaved with transitions, concrete context + data).',
-        'modules': ['SMV.Props.C10', 'SMV.Props.RefineMixed', 'SMV.Props.RefineErase'],
+        'modules': ['SMV.Props.C10', 'SMV.Props.RefineMixed', 'SMV.Props.RefineErase', 'SMV.Props.EndToEndModes'],
         'regions': ['ID', 'EX', 'DF', 'DN'],
         't3': ['walk', 'abandon'],
         'design_ref': 'DESIGN.md §7 C10',
@@ -119,9 +119,9 @@ PROPS = {
     },
     'C15': {
         'title': 'Async machines behave exactly like their sync counterparts',
-        'level_text': "Proof (C15.runAsync_eq_run, methodProg_async_erase, async_method_eq_sync, async_handle_eq_sync): under every suspension schedule the async expansion of every edge and of handle yields exactly the result, state, data and hook trace of the sync expansion of the same definition; the async branches of the generator add .await to every hook call and nothing else. PARTIAL: the Send clause is not a Lean theorem; it is established by rustc on the probe crates (T4 assert_send). RefineAsyncVeto.async_refines_spec_veto / async_replies_refine and RefineAsyncData.async_cell_refines: with vetoes, with exact replies and with the data cell, the asynchronous machine under any schedule per dispatch refines the same abstract machines as its synchronous expansion. RefineTypedAsync.typed_async_refines_spec: likewise the typestate API of an async machine, every call awaited to completion under any schedule. RefineEraseAsync.async_conversion_erasure: for arbitrary hooks and any suspension schedule per dispatch, an async machine driven through either API with conversions interleaved ends with the same machine carried (state, context, data) after the same hook trace as the synchronous expansion's wrapper over the same events, or both are ended by a hook panic.",
+        'level_text': "Proof (C15.runAsync_eq_run, methodProg_async_erase, async_method_eq_sync, async_handle_eq_sync): under every suspension schedule the async expansion of every edge and of handle yields exactly the result, state, data and hook trace of the sync expansion of the same definition; the async branches of the generator add .await to every hook call and nothing else. PARTIAL: the Send clause is not a Lean theorem; it is established by rustc on the probe crates (T4 assert_send). RefineAsyncVeto.async_refines_spec_veto / async_replies_refine and RefineAsyncData.async_cell_refines: with vetoes, with exact replies and with the data cell, the asynchronous machine under any schedule per dispatch refines the same abstract machines as its synchronous expansion. RefineTypedAsync.typed_async_refines_spec: likewise the typestate API of an async machine, every call awaited to completion under any schedule. RefineEraseAsync.async_conversion_erasure: for arbitrary hooks and any suspension schedule per dispatch, an async machine driven through either API with conversions interleaved ends with the same machine carried (state, context, data) after the same hook trace as the synchronous expansion's wrapper over the same events, or both are ended by a hook panic. C15Valid.validate_syncTwin: validation never reads async, so the synchronous twin of a validated machine validates and the hypothesis hv' of all async theorems is always met. EndToEndModes.end_to_end_modes: from the definition as written (parser's and validator's rules) to the machine new creates behaving, through either API with conversions under arbitrary hooks and schedules, as the synchronous expansion's wrapper.",
         'level_note': 'That `.await` runs a hook future to completion before the next statement is the trusted reading of the fragment, validated by T3 susp (random suspension counts per hook, hand-written single-step executor). Ties: T2 regions SIG AB GC BC AC AA HD.',
-        'modules': ['SMV.Props.C15', 'SMV.Props.RefineAsync', 'SMV.Props.RefineAsyncVeto', 'SMV.Props.RefineAsyncData', 'SMV.Props.RefineTypedAsync', 'SMV.Props.RefineEraseAsync'],
+        'modules': ['SMV.Props.C15', 'SMV.Props.RefineAsync', 'SMV.Props.RefineAsyncVeto', 'SMV.Props.RefineAsyncData', 'SMV.Props.RefineTypedAsync', 'SMV.Props.RefineEraseAsync', 'SMV.Props.C15Valid', 'SMV.Props.EndToEndModes'],
         'regions': ['SIG', 'AB', 'GC', 'BC', 'AC', 'AA', 'HD'],
         't3': ['susp', 'abandon'],
         't4': ['send'],
